@@ -139,8 +139,12 @@ def run_twin(case, compare_sections=('params', 'rg', 'flags', 'grads'), probe_fo
         last_fault = op['op'] + (':mid' if sub != 0 else '')
         fault_since_state_op = True
         try:
-            if op.get('no_grad'):
-                # reporting code often runs under torch.no_grad()
+            if op.get('no_grad') == 'inference':
+                # reporting / validation code often runs under torch.inference_mode() ...
+                with torch.inference_mode():
+                    W.apply_observer(S, op)
+            elif op.get('no_grad'):
+                # ... or under torch.no_grad()
                 with torch.no_grad():
                     W.apply_observer(S, op)
             else:
